@@ -207,4 +207,12 @@ def pyMaxList : List Int → PyR Int
   | [] => .error .ValueError
   | x :: xs => .ok (xs.foldl max x)
 
+/-- `CompoundInterval.from_single_intervals(bs)` on parent-less intervals (the set of parents is `{None}`): ValueError
+    for an empty list or more than one strand among the members, otherwise the list handed to
+    `_from_single_intervals_no_validation`.  The translator pins the Python text this was written from
+    (`FROM_SINGLE_INTERVALS_SRC`, guard `from_single_intervals`). -/
+def fromSingleIntervalsCheck : List SI → PyR (List SI)
+  | [] => .error .ValueError
+  | b :: bs => if bs.all (fun x => x.strand == b.strand) then .ok (b :: bs) else .error .ValueError
+
 end BioCantor.GenP
